@@ -6,6 +6,10 @@ import "github.com/crillab/gophersat/solver"
 
 const hooksOn = false
 
-func setNbMax(s *solver.Solver, n int)  {}
-func stateOK(s *solver.Solver) string   { return "" }
-func learned(s *solver.Solver) []string { return nil }
+func setNbMax(s *solver.Solver, n int)   {}
+func setRestart(s *solver.Solver, k int) {}
+func stateOK(s *solver.Solver) string    { return "" }
+func learned(s *solver.Solver) []string  { return nil }
+
+func traceOn(s *solver.Solver, max, every int, quiet, withConstrs bool) {}
+func traceSnaps(s *solver.Solver) []Snap                                { return nil }
